@@ -593,6 +593,12 @@ class C27(C.Check):
         cleanup_scratch(self.prop)
 
     def replay(self, ctx, rp):
+        try:
+            return self.replay_(ctx, rp)
+        finally:
+            cleanup_scratch(self.prop)
+
+    def replay_(self, ctx, rp):
         import logging
         import warnings
         import nifty.cl as ift
